@@ -66,12 +66,16 @@ Proof.
 Qed.
 
 (* the state right after tickit_window_new_root *)
-Theorem init_inv3 nl nc orc : 0 < nl -> 0 < nc -> r_fault (m_root (m_init nl nc orc)) = false ->
-  MInv3 (m_init nl nc orc).
+Theorem init_inv3_f fuel nl nc orc : 0 < nl -> 0 < nc -> r_fault (m_root (m_init_f fuel nl nc orc)) = false ->
+  MInv3 (m_init_f fuel nl nc orc).
 Proof.
-  intros Hl Hc Hf. destruct (init_inv nl nc orc Hl Hc Hf) as [A B].
+  intros Hl Hc Hf. destruct (init_inv_f fuel nl nc orc Hl Hc Hf) as [A B].
   split; [exact A|]. split; [exact B|].
-  unfold m_init; cbn [m_root]. apply dinv_expose; [apply inv_nil|].
-  intros _ w Hw. assert (Hch : t_chain 0 (r_tree (root_new nl nc)) = Some [r_tree (root_new nl nc)]) by reflexivity.
+  unfold m_init_f; cbn [m_root]. apply dinv_expose; [apply inv_nil|].
+  intros _ w Hw. assert (Hch : t_chain 0 (r_tree (root_new_f fuel nl nc)) = Some [r_tree (root_new_f fuel nl nc)]) by reflexivity.
   rewrite Hch in Hw. injection Hw as <-. unfold nonempty; cbn. lia.
 Qed.
+
+Theorem init_inv3 nl nc orc : 0 < nl -> 0 < nc -> r_fault (m_root (m_init nl nc orc)) = false ->
+  MInv3 (m_init nl nc orc).
+Proof. exact (init_inv3_f rsfuel nl nc orc). Qed.
